@@ -235,6 +235,30 @@ def check_identities(ctx: Ctx, cw, case, m, db, span, sm, prefix, with_ant=False
                 b = ks.series_values(sm, name, sim_span)
                 if not iclose(a, b, 1e-7):
                     fail(ctx, prefix + "-resimulation", cw, f"{name}: simulated {a.tolist()} smoothed {b.tolist()}")
+            # the measurement variables of the re-simulation: equal to the data wherever data exist, and in EVERY period equal to the
+            # measurement equation evaluated with the generator's own coefficients (intercepts, log observables) on the smoothed
+            # states and measurement shocks -- in level mode with the intercept, in deviation mode without it
+            import irispie as ir
+            chk = ir.Databox()
+            for name in sm.keys():
+                try:
+                    chk[name] = ir.Series(start=span.start, values=ks.series_values(sm, name, span))
+                except Exception:
+                    pass
+            for i in range(ny):
+                a = np.array(sdb[f"o{i}"].get_data(span), dtype=float)
+                a = a.reshape(a.shape[0], -1)[:, column or 0]
+                chk[f"o{i}"] = ir.Series(start=span.start, values=a)
+                want = ks.series_values(db, f"o{i}", span)
+                for t in range(lag, nper):
+                    if data["mask"][t][i] and not iclose([a[t]], [want[t]], 1e-7):
+                        fail(ctx, prefix + "-resimulation-measurement", cw,
+                             f"o{i} t={t} (deviation={case['deviation']}): re-simulated {a[t]!r} but the datum is {want[t]!r}")
+            _, me_sim = equation_residuals(mcd, chk, span, lag, with_ant=with_ant)
+            if me_sim.size and not iclose(me_sim, np.zeros_like(me_sim), 1e-7):
+                fail(ctx, prefix + "-resimulation-measurement", cw,
+                     f"deviation={case['deviation']}: re-simulated measurement variables do not satisfy the measurement equations, "
+                     f"max residual {np.nanmax(np.abs(me_sim))!r} (nan={bool(np.isnan(me_sim).any())})")
         except Exception as e:
             fail(ctx, prefix + "-resimulation", cw, "simulate raises " + repr(e)[:200])
 
@@ -273,10 +297,15 @@ def oracle_e2e(ctx: Ctx, case):
     c_lvl = dict(case); c_lvl["deviation"] = False
     c_dev = dict(case); c_dev["deviation"] = True
     try:
-        _, _, _, o_l, i_l = (m, db, span, out, info) if not case["deviation"] else ks.run_e2e(c_lvl, m=m)
-        _, _, _, o_d, i_d = (m, db, span, out, info) if case["deviation"] else ks.run_e2e(c_dev, m=m)
+        _, db_l, _, o_l, i_l = (m, db, span, out, info) if not case["deviation"] else ks.run_e2e(c_lvl, m=m)
+        _, db_d, _, o_d, i_d = (m, db, span, out, info) if case["deviation"] else ks.run_e2e(c_dev, m=m)
     except Exception as e:
         fail(ctx, "e2e-deviation", cw, "raises " + repr(e)[:200]); return
+    # the smoothed output is a simulation of the model in BOTH modes: the identities and the re-simulation of the other mode as well
+    if case["deviation"]:
+        check_identities(ctx, cw, c_lvl, m, db_l, span, o_l["smooth_med"], "e2e")
+    else:
+        check_identities(ctx, cw, c_dev, m, db_d, span, o_d["smooth_med"], "e2e")
     for step in ("predict_med", "update_med", "smooth_med"):
         for j in range(nx):
             key = ks.var_key(f"x{j}", mc["logx"][j])
@@ -330,6 +359,7 @@ def run_sequences(ctx: Ctx, cases):
         try:
             m, results = ks.run_sequence(c)
         except np.linalg.LinAlgError:
+            c.pop("_mc_now", None)
             ctx.count("sequence:singular_skipped"); continue
         except Exception as e:
             if c["mc"].get("fwd") and ("solv" in repr(e).lower() or "stab" in repr(e).lower() or "saddle" in repr(e).lower()):
@@ -341,7 +371,10 @@ def run_sequences(ctx: Ctx, cases):
                 ctx.count("sequence:ill_conditioned_skipped"); continue
         except Exception:
             pass
-        hs = [h for _, h in c["ops"]]
+        mc_now = c.pop("_mc_now", c["mc"])
+        if any(op in ("assign_stds", "rescale_stds") for op, _ in c["ops"]): ctx.count("sequence:with_std_change")
+        if any(op == "copy" for op, _ in c["ops"]): ctx.count("sequence:with_copy")
+        hs = [h for op, h in c["ops"] if op in ("filter", "simulate")]
         ctx.count(f"sequence:ops={'>'.join(op for op, _ in c['ops'])}"); ctx.count(f"sequence:forward={c['mc'].get('fwd') is not None}")
         ctx.count("sequence:horizons=" + ("single" if len(hs) == 1 else ("growing" if hs == sorted(hs) and hs[0] < hs[-1] else "other")))
         ctx.nontriv(("sequence", json.dumps(c["mc"], sort_keys=True), json.dumps(c["ant"]), json.dumps(c["ops"])))
@@ -360,7 +393,7 @@ def run_sequences(ctx: Ctx, cases):
         if len(c["ops"]) > 1 and results:
             db, span, out, info, ant = results[-1]
             try:
-                fresh = ks.build_model(c["mc"])
+                fresh = ks.build_model(mc_now)          # same equations, the stds in force at the last call
                 out_f, info_f = fresh.kalman_filter(db, span, return_info=True, shocks_from_data=True)
                 names = [f"x{j}" for j in range(len(c["mc"]["logx"]))] + (["f"] if c["mc"].get("fwd") else []) \
                     + [f"e{j}" for j in range(len(c["mc"]["std_e"]))] + [f"w{j}" for j in range(len(c["mc"]["std_w"]))]
